@@ -277,11 +277,18 @@ func (fw *FileWrap) WriteSlice(slotIdx int, endSlotIdx int, offset int64, dat []
 	if err != nil {
 		return errors.Wrapf(err, "seek unreachable file:%s", fw.Name())
 	}
-	var buff = make([]byte, 0, unit32Size)
-	buff = encoding.MarshalUint32(buff, uint32(len(dat))) // size
-	_, err = fw.fd.Write(buff)
-	if err != nil {
-		return errors.Wrapf(err, "write failed for file:%s", fw.Name())
+	// clearSlots: dat is a run of zeros that wipes whole slots. It carries no size prefix: the prefix would be
+	// left in the first wiped slot and would push the run unit32Size bytes past the end of the slot table.
+	prefix := unit32Size
+	if clearSlots {
+		prefix = 0
+	} else {
+		var buff = make([]byte, 0, unit32Size)
+		buff = encoding.MarshalUint32(buff, uint32(len(dat))) // size
+		_, err = fw.fd.Write(buff)
+		if err != nil {
+			return errors.Wrapf(err, "write failed for file:%s", fw.Name())
+		}
 	}
 	_, err = fw.fd.Write(dat) // data
 	if err != nil {
@@ -289,12 +296,14 @@ func (fw *FileWrap) WriteSlice(slotIdx int, endSlotIdx int, offset int64, dat []
 	}
 	_, err = fw.fd.Seek(0, io.SeekEnd)
 	if fw.current || fw.isMetaFile() {
-		if int(offset)+unit32Size+len(dat) >= len(fw.data) {
-			fw.reSize(int(offset) + unit32Size + len(dat))
+		if int(offset)+prefix+len(dat) >= len(fw.data) {
+			fw.reSize(int(offset) + prefix + len(dat))
 		}
 		dst := fw.data[offset:]
-		binary.BigEndian.PutUint32(dst[:unit32Size], uint32(len(dat))) // size
-		copy(dst[unit32Size:], dat)                                    // data
+		if !clearSlots {
+			binary.BigEndian.PutUint32(dst[:unit32Size], uint32(len(dat))) // size
+		}
+		copy(dst[prefix:], dat) // data
 	} else {
 		// try to clean cache
 		cache.cache.Remove(fw.Name())
